@@ -139,6 +139,7 @@ impl State {
             "parse" => self.run_parse(case),
             "eval" => self.run_eval(case),
             "history" => self.run_history(case),
+            "impl" => self.run_impl(case),
             _ => {
                 self.count("unknown_kind");
             },
@@ -427,6 +428,44 @@ impl State {
                 }
             }
         }
+    }
+
+    // ------------------------------------------------------------------------------------------
+    // kind "impl": the exact outcome of the implementation-shaped builder model (TreeBuilder.tla) for a token
+    // sequence: tree (normal form) or error variant.  A diagnostic, never a property verdict.
+    // ------------------------------------------------------------------------------------------
+    fn run_impl(&mut self, case: &J) {
+        let toks: Vec<String> = case["toks"].as_array().map(|a| a.iter().map(text_of).collect()).unwrap_or_default();
+        let src = toks.join(" ");
+        self.count("impl_cases");
+        self.distinct("impl", case);
+        let built = match guard(|| build_operator_tree::<DefaultNumericTypes>(&src)) {
+            Ok(b) => b,
+            Err(p) => {
+                self.fail("panic", format!("build_operator_tree({src:?}) panicked at {p}"), case, json!({"panic": p}));
+                return;
+            },
+        };
+        let want_ok = case["ok"].as_bool().unwrap_or(false);
+        match (&built, want_ok) {
+            (Ok(t), true) => {
+                let got = normalise(t);
+                if let Some(want) = dec_tree(&case["tree"]) {
+                    if !same_tree(&got, &want) {
+                        self.fail("impl_model", format!("{src:?}: the builder model predicts another tree"), case, json!({"tree": enc_tree(&got)}));
+                    }
+                }
+            },
+            (Err(e), false) => {
+                let got = enc_error(e);
+                if got["e"] != case["err"] {
+                    self.fail("impl_model", format!("{src:?}: error {} but the builder model predicts {}", got["e"], case["err"]), case, got);
+                }
+            },
+            (Ok(_), false) => self.fail("impl_model", format!("{src:?}: accepted, the builder model predicts {}", case["err"]), case, json!(null)),
+            (Err(e), true) => self.fail("impl_model", format!("{src:?}: rejected with {e:?}, the builder model predicts a tree"), case, json!(null)),
+        }
+        self.sample("impl", json!({"source": src, "model_ok": want_ok, "model_error": case["err"]}));
     }
 
     // ------------------------------------------------------------------------------------------
